@@ -39,11 +39,28 @@ def gen_hashable(tape):
     return tape.choice(STRS) + 's'
 
 
+# The pinned jsonpickle 0.9.3 on Python >= 3.11 mis-numbers py/id references that follow a plain object whose
+# state holds containers (object.__getstate__ exists since 3.11 and sends it down the py/state path).  Plain objects
+# and shared references are therefore never mixed inside one run: each run picks one flavour.
+FLAVOUR = {'objects': True, 'sharing': False}
+
+
+def set_flavour(tape):
+    f = tape.draw(3)
+    FLAVOUR['objects'] = f != 1
+    FLAVOUR['sharing'] = f == 1
+    return 'sharing' if f == 1 else 'objects'
+
+
 def gen_value(tape, depth=2, width=3):
     """A value of the faithful domain; tape value 0 gives the simplest (a small int)."""
     if depth <= 0:
         return gen_scalar(tape)
     kind = tape.draw(9)
+    if kind == 7 and not FLAVOUR['objects']:
+        kind = 5
+    if kind == 8 and not FLAVOUR['sharing']:
+        kind = 3
     if kind <= 2:
         return gen_scalar(tape)
     n = tape.draw(width + 1)
@@ -65,6 +82,18 @@ def gen_value(tape, depth=2, width=3):
     # shared sub-object inside a container
     shared = gen_value(tape, depth - 1, width)
     return [shared, {'again': shared}]
+
+
+def doc_faithful(doc):
+    """Whole-document check: does the pinned serializer round-trip this (recording sized) document?"""
+    try:
+        r = decode(encode(doc, unpicklable=True))
+    except Exception:
+        return False
+    try:
+        return canon(r) == canon(doc)
+    except RecursionError:
+        return False
 
 
 def faithful(v):
